@@ -485,6 +485,10 @@ func writeEvidence(path, prop, tier string, seed int, results []*FuncResult, byS
 	}
 	tb := []string{}
 	for t := range trusted {
+		if strings.HasPrefix(t, "derived|") {
+			tb = append(tb, "derived contract (no longer trusted on its own): "+shortKey(strings.TrimPrefix(t, "derived|")))
+			continue
+		}
 		tb = append(tb, "trusted contract: "+shortKey(t))
 	}
 	sort.Strings(tb)
